@@ -125,6 +125,7 @@ probes! {
     rng_entry_sample => "rng_entry.standard_sample",
     rng_entry_iter => "rng_entry.sample_iter",
     rng_entry_dyn => "rng_entry.dyn_rngcore",
+    rng_entry_multi => "rng_entry.array_or_tuple",
     rng_reject1 => "probe.rejection_loop_1+",
     rng_reject4 => "probe.rejection_loop_4+",
     rng_out_zero => "probe.sample_is_zero",
